@@ -93,6 +93,11 @@ impl WalIndex {
         #[cfg(walrus_verif)]
         crate::wal::verif::io_gate("index_rename", &tmp_path, &self.path)?;
         fs::rename(&tmp_path, &self.path)?;
+        // The rename is a directory operation: without syncing the directory a power loss can
+        // bring the previous index file back, i.e. forget consumption that was acknowledged.
+        if let Some(dir) = std::path::Path::new(&self.path).parent() {
+            fs::File::open(dir)?.sync_all()?;
+        }
         Ok(())
     }
 }
